@@ -332,6 +332,25 @@ func c10family2(c *c10ctx, chunk int) {
 			}
 		}
 		c.Count("typens_exhaustive")
+		// compact.Reference: an id packed as value<<1 when it is in the primary type+namespace
+		// and its top bit is clear, as (type+namespace<<1|1, value) otherwise
+		var rb [2 * binary.MaxVarintLen64]byte
+		for _, v := range w64 {
+			for _, tn := range []compact.TypeAndNamespace{compact.CombineTypeAndNamespace(b6.FeatureTypePoint, 1), compact.CombineTypeAndNamespace(b6.FeatureTypeRelation, 8191), compact.CombineTypeAndNamespace(b6.FeatureTypeExpression, 5)} {
+				for _, primary := range []compact.TypeAndNamespace{tn, compact.CombineTypeAndNamespace(b6.FeatureTypePath, 2), compact.TypeAndNamespaceInvalid} {
+					in := compact.Reference{TypeAndNamespace: tn, Value: v}
+					n := in.Marshal(primary, rb[:])
+					var out compact.Reference
+					out.TypeAndNamespace = primary // what Unmarshal leaves for the short form
+					m := out.Unmarshal(primary, rb[:n])
+					evals++
+					if m != n || out != in {
+						c.Violate("Reference:unmarshal(marshal)-differs", nil, "Reference{%#x, %#x} with primary %#x marshals to %d bytes and reads back as {%#x, %#x} from %d bytes", uint64(tn), v, uint64(primary), n, uint64(out.TypeAndNamespace), out.Value, m)
+					}
+				}
+			}
+		}
+		c.Count("reference_packing")
 	}
 	encodings := []compact.GeometryEncoding{compact.GeometryEncodingReferences, compact.GeometryEncodingLatLngs, compact.GeometryEncodingMixed}
 	var buffer [binary.MaxVarintLen64]byte
